@@ -352,6 +352,21 @@ def judge(ctx, world, insts, target, op, history, case, exhaustive=False):
     if got != expected[1]:
         ctx.violation("container_model", f"{dr.op_src(op)} on {n}={before_txt}: result {safe_repr(got, 90)}, plain-container model {safe_repr(expected[1], 90)}", features=feats, case=case, **details)
         return st
+    # a keyed result answers by key in list order: keys()/items() enumerate the elements as iteration does
+    live = res.__dict__.get(n)
+    if type(live).__name__ == "KeyedList":
+        ctx.count("keyed_result_views_checked")
+        try:
+            elems = list(live)
+            by_keys = [live[k] for k in live.keys()]
+            by_items = [it for _k, it in live.items()]
+            ok = len(by_keys) == len(elems) == len(by_items) and all(x is y and x is z for x, y, z in zip(elems, by_keys, by_items))
+            shown = f"iteration gives {safe_repr(elems, 60)}, [l[k] for k in l.keys()] gives {safe_repr(by_keys, 60)}, items() gives {safe_repr(by_items, 60)}"
+        except Exception as e:
+            ok, shown = False, f"reading keys()/items()/l[k] raised {type(e).__name__}: {safe_repr(e, 80)}"
+        if not ok:
+            ctx.violation("container_model", f"{dr.op_src(op)} on {n}={before_txt}: the resulting KeyedList's key views disagree with its element order: {shown}", features=dict(feats, view="keyed_order"), case=case, **details)
+            return st
     # all other attributes untouched (invalidated_by dependants and caches of the changed attribute excepted)
     skip = dependants(world, cname, n)
     post_other = {k: alpha(v) for k, v in res.__dict__.items() if k != n}
